@@ -11,4 +11,16 @@ PENDING = {
     "C30": _P, "C31": _P, "C32": _P,
 }
 
-CHECKS = {}
+_TB = "Trusted: the VC generator vf/ (Python ast -> z3) and its models of Python built-ins; z3/cvc5; arithmetic idealisations listed in the evidence 'assumptions'; assumed contracts of external functions listed there. "
+
+CHECKS = {
+    "C30": dict(
+        level="proof",
+        text="Deductive: the real per_loop_transfer_cost methods and their helpers are symbolically executed from /repo's source on every run; total hops and max per-link traffic are proved equal to the route-enumeration spec (recursive spec functions hops_uni/cnt, closed forms proved by induction as lemma VCs) for every n>=1, stride>=1, volume>=0, both topologies. Known finding F8 (n=1 multicast) is excluded only from the two obligations it names and its witness is replayed on the real code each run. A bounded cross-check of the executable spec against the real code (n<=32, s<=8) corroborates the spec itself.",
+        note=_TB + "Real arithmetic for sympy/float values; _get_physical_fanout_along is an assumed pure function; distributed-source branch is outside the property (precondition pf<=1).",
+        technique="contract-based deductive verification (ast->z3 VCs, induction lemmas), counter-model replay on real code",
+        design_ref="DESIGN 3 C30",
+    ),
+}
+for k in CHECKS:
+    PENDING.pop(k, None)
